@@ -191,6 +191,196 @@ def curve_history(lib, rng, steps, val, rational):
         val.add({"name": "SameFunction", "op": name}, c=pre, d=post, dv=sample_values(pre, post, c))
 
 
+def rand_curve(lib, rng, maxdeg=6, maxknots=5, rational=False, den=6):
+    U = rand_kv(rng, maxdeg=maxdeg, maxknots=maxknots, den=den)
+    c = lib.Curve(U)
+    n = c.npts
+    c.ctrlpoints = [Fraction(rng.randint(-6, 6), rng.choice([1, 2, 3])) for _ in range(n)]
+    if rational:
+        c.weights = [Fraction(rng.randint(1, 5), rng.choice([1, 2])) for _ in range(n)]
+    return c
+
+
+def big_eval(lib, rng, val, count):
+    """C01 on larger instances (degree up to 6, up to 5 interior knots of any multiplicity): observed values on a
+    grid incl. every knot and both ends, judged by TLC against Eval"""
+    tall = []
+    for p in (8, 10, 12):                                   # beyond every exhaustive bound
+        for inner, rational in (([], False), ([Fraction(1)], True)):
+            U = [Fraction(-1)] * (p + 1) + inner * 2 + [Fraction(2)] * (p + 1)
+            c = lib.Curve(U)
+            c.ctrlpoints = [Fraction(rng.randint(-3, 3)) for _ in range(c.npts)]
+            if rational:
+                c.weights = [Fraction(1 + (i % 3)) for i in range(c.npts)]
+            tall.append(c)
+    for k in range(count + len(tall)):
+        c = tall[k] if k < len(tall) else rand_curve(lib, rng, rational=(k % 2 == 1))
+        pc = project_curve(c)
+        ks = sorted(set(c.knotvector))
+        pts = set(ks)
+        for a, b in zip(ks[:-1], ks[1:]):
+            for i in range(1, 3 if k < len(tall) else 4):
+                pts.add(a + (b - a) * Fraction(i, 4))
+        pts = sorted(pts)
+        try:
+            vals = c(pts)
+            dv = []
+            for u, v in zip(pts, vals):
+                r = rat(v)
+                dv.append([rat(u), r if core.fits32(r) else [0, 0]])
+        except Exception as e:
+            val.add({"name": "DriverError", "op": "eval", "error": repr(e)}, c=pc)
+            continue
+        if core.fits32(pc, 2 ** 20):
+            val.add({"name": "EvalObs"}, c=pc, dv=dv)
+
+
+def big_basis(lib, rng, val, count):
+    for k in range(count):
+        U = rand_kv(rng, maxdeg=5, maxknots=4, den=6)
+        f = lib.Function(U)
+        W = []
+        if k % 2:
+            W = [Fraction(rng.randint(1, 5), rng.choice([1, 2])) for _ in range(f.npts)]
+            f.weights = W
+        j = f.degree if W else rng.randint(0, f.degree)
+        lo, hi = U[0], U[-1]
+        for u in (lo, hi, rng.choice(U), lo + (hi - lo) * Fraction(rng.randint(1, 16), 17)):
+            try:
+                row = [rat(x) for x in f[:, j](u)]
+            except Exception as e:
+                val.add({"name": "DriverError", "op": "basis", "error": repr(e)}, c={"U": rats(U), "P": [], "W": rats(W)})
+                continue
+            if core.fits32(row):
+                val.add({"name": "BasisObs", "kv": rats(U), "weights": rats(W), "j": j, "u": rat(u), "row": row})
+
+
+def big_integ(lib, rng, val, count):
+    """C10 on tall instances: default exact integration of splines of degree up to 12"""
+    from compmec.nurbs.calculus import Integrate
+    tall = []
+    for p in (8, 9, 10, 11, 12, 13):                       # deliberately beyond every exhaustive bound
+        for inner in ([], [Fraction(1, 2)]):
+            U = [Fraction(0)] * (p + 1) + inner + [Fraction(2)] * (p + 1)
+            c = lib.Curve(U)
+            c.ctrlpoints = [Fraction(rng.randint(-4, 4)) for _ in range(c.npts)]
+            tall.append(c)
+    for k in range(count + len(tall)):
+        c = tall[k] if k < len(tall) else rand_curve(lib, rng, maxdeg=6, maxknots=4, rational=False, den=4)
+        pc = project_curve(c)
+        try:
+            v = rat(Integrate.scalar(c))
+        except Exception as e:
+            val.add({"name": "DriverError", "op": "integrate", "error": repr(e)}, c=pc)
+            continue
+        if core.fits32(pc, 2 ** 24):
+            val.add({"name": "IntegObs", "value": v if core.fits32(v) else [0, 0]}, c=pc)
+
+
+def fn_history(lib, rng, val, count):
+    """C02 along a history on ONE Function object: evaluate, change the degree / the knot vector in place,
+    evaluate again (the second evaluation is judged against the table of the CURRENT knot vector)"""
+    for k in range(count):
+        U = rand_kv(rng, maxdeg=3, maxknots=3, den=4)
+        kv = lib.KnotVector(U)
+        f = lib.Function(kv)
+        W = []
+        for step in range(4):
+            lo, hi = f.knotvector.limits
+            u = rng.choice([lo, hi, lo + (hi - lo) * Fraction(rng.randint(1, 8), 9), rng.choice(list(f.knotvector))])
+            try:
+                row = [rat(x) for x in f(u)]
+                Unow = rats(f.knotvector)
+            except Exception as e:
+                val.add({"name": "DriverError", "op": f"Function history step {step}", "error": repr(e)},
+                        c={"U": rats(list(f.knotvector)), "P": [], "W": rats(W)})
+                break
+            if core.fits32([row, Unow], 2 ** 20):
+                val.add({"name": "BasisObs", "kv": Unow, "weights": rats(W), "j": f.degree, "u": rat(u), "row": row,
+                         "history_step": step})
+            op = rng.choice(["degree+", "degree-", "shift", "scale", "insert", "normalize", "weights"])
+            try:
+                if op == "degree+":
+                    f.degree = f.degree + 1
+                elif op == "degree-":
+                    f.degree = max(0, f.degree - 1)
+                elif op == "shift":
+                    f.knotvector.shift(Fraction(rng.randint(-3, 3), 2))
+                elif op == "scale":
+                    f.knotvector.scale(Fraction(rng.randint(1, 5), 2))
+                elif op == "insert":
+                    f.knotvector.insert([lo + (hi - lo) * Fraction(rng.randint(1, 6), 7)])
+                elif op == "normalize":
+                    f.knotvector.normalize()
+                elif op == "weights":
+                    W = [Fraction(rng.randint(1, 5), rng.choice([1, 2])) for _ in range(f.npts)]
+                    f.weights = W
+                if op in ("degree+", "degree-", "insert") and W:
+                    W = []
+                    f.weights = None
+            except ValueError:
+                pass
+
+
+def big_arith(lib, rng, val, count):
+    """C08 / C13 on larger instances: A op B with observed values, A == B against function equality"""
+    from .drivers import sample_values as _sv  # noqa
+    for k in range(count):
+        A = rand_curve(lib, rng, maxdeg=3, maxknots=3, rational=(k % 3 == 2), den=4)
+        lo, hi = A.knotvector.limits
+        UB = rand_kv(rng, maxdeg=3, maxknots=2, den=4)
+        s = (hi - lo) / (UB[-1] - UB[0])
+        UB = [lo + (x - UB[0]) * s for x in UB]
+        B = lib.Curve(UB)
+        B.ctrlpoints = [Fraction(rng.randint(1, 5), rng.choice([1, 2])) for _ in range(B.npts)]
+        pa, pb = project_curve(A), project_curve(B)
+        op = rng.choice(["add", "sub", "mul", "div"])
+        try:
+            R = {"add": lambda: A + B, "sub": lambda: A - B, "mul": lambda: A * B, "div": lambda: A / B}[op]()
+            pr = project_curve(R)
+        except Exception as e:
+            val.add({"name": "DriverError", "op": op, "error": repr(e)}, c=pa, b=pb)
+            continue
+        if not core.fits32([pa, pb], 2 ** 20):
+            continue
+        deg = _deg(pa["U"]) + _deg(pb["U"]) + _deg(pr["U"])
+        ks = sorted({core.fr(x) for x in pa["U"]} | {core.fr(x) for x in pb["U"]} | {core.fr(x) for x in pr["U"]})
+        pts = set(ks)
+        for a, b in zip(ks[:-1], ks[1:]):
+            for i in range(1, deg + 2):
+                pts.add(a + (b - a) * Fraction(i, deg + 2))
+        dv = []
+        for u in sorted(pts):
+            v = [0, 0]
+            try:
+                r = rat(R(u))
+                if core.fits32(r):
+                    v = r
+            except Exception:
+                pass
+            dv.append([rat(u), v])
+        d = {"U": pr["U"], "P": [x if core.fits32(x) else [0, 0] for x in pr["P"]],
+             "W": [x if core.fits32(x) else [0, 0] for x in pr["W"]]}
+        val.add({"name": "CvArith", "op": op}, c=pa, b=pb, d=d, dv=dv)
+        # equality: a refined copy is equal, a perturbed copy is not
+        try:
+            C2 = copy.deepcopy(A)
+            C2.knot_insert([lo + (hi - lo) * Fraction(rng.randint(1, 6), 7)])
+            if rng.random() < 0.5:
+                C2.degree_increase(1)
+            same = bool(A == C2)
+            pts2 = list(C2.ctrlpoints)
+            pts2[rng.randrange(len(pts2))] += Fraction(1, 10)
+            C3 = copy.deepcopy(C2)
+            C3.ctrlpoints = pts2
+            diff = bool(A == C3)
+            if core.fits32([project_curve(C2), project_curve(C3)], 2 ** 20):
+                val.add({"name": "EqObs", "eq": same}, c=pa, b=project_curve(C2))
+                val.add({"name": "EqObs", "eq": diff}, c=pa, b=project_curve(C3))
+        except Exception as e:
+            val.add({"name": "DriverError", "op": "eq", "error": repr(e)}, c=pa)
+
+
 def run_recorded(fn):
     """run fn() with the external recorder installed in-process; returns the recorded events"""
     fd, out = tempfile.mkstemp(prefix="verif_drv_", suffix=".ndjson")
